@@ -1192,3 +1192,53 @@ fn c10_bytes_splice_enum() {
         skip += 1;
     }
 }
+
+// ------------------------------------------------------------------------------------------
+// C10: the array and byte-string accessors apply the position model to the right length
+// (the real `Val::index_opt` / `Val::range` with the real `skip_take*`; containers and positions
+// enumerated concretely, which is the property's own quantifier on a smaller box)
+// ------------------------------------------------------------------------------------------
+/// a 3-element array: `.[i]` for every i in -5..=5 reads position (i >= 0 ? i : len + i)
+/// iff it is inside, else yields nothing (null)
+#[kani::proof]
+#[kani::unwind(14)]
+fn c10_read_array_index() {
+    let mut len = 3usize;
+    while len <= 3 {
+        let mut i: isize = -5;
+        while i <= 5 {
+            let items: Vec<Val> = (0..len).map(|k| Val::Num(Num::Int(10 + k as isize))).collect();
+            let a = Val::Arr(Rc::new(items));
+            let idx = MD::new(Val::Num(Num::Int(i)));
+            let r = MD::new(a.index_opt(&*idx));
+            let pos = if i >= 0 { i } else { len as isize + i };
+            match &*r {
+                Ok(Some(Val::Num(Num::Int(x)))) => assert!(0 <= pos && (pos as usize) < len && *x == 10 + pos),
+                Ok(None) => assert!(!(0 <= pos && (pos as usize) < len)),
+                _ => assert!(false),
+            }
+            i += 1;
+        }
+        len += 1;
+    }
+}
+/// byte strings: `.[i]` reads the byte at the model position (as a number), for a 3-byte
+/// string and every i in -5..=5
+#[kani::proof]
+#[kani::unwind(14)]
+fn c10_read_bytes_index() {
+    let mut i: isize = -5;
+    while i <= 5 {
+        let b = Val::byte_str(Vec::from(*b"\x07\xc3\xa4"));
+        let idx = MD::new(Val::Num(Num::Int(i)));
+        let r = MD::new(b.index_opt(&*idx));
+        let pos = if i >= 0 { i } else { 3 + i };
+        let bytes = [7isize, 0xc3, 0xa4];
+        match &*r {
+            Ok(Some(Val::Num(n))) => assert!(0 <= pos && pos < 3 && int_value(n) == Some(bytes[pos as usize] as i128)),
+            Ok(None) => assert!(!(0 <= pos && pos < 3)),
+            _ => assert!(false),
+        }
+        i += 1;
+    }
+}
